@@ -43,20 +43,16 @@ EPSF = 2.0 ** -53
 ASSUMPTIONS += ["KDE with a bandwidth below 1/64 of the spacing of its 150-point table is excluded: every tabulated value can underflow to zero and "
                 "no table can be normalised then (the generator goes down to 0.047 table spacings)",
                 "Likelihood_Poisson with s+b = 0 and n > 0 (log-likelihood -inf, likelihood 0 = PMF_Poisson(0,n)) is not compared with the model (outside exact arithmetic)"]
-# OPEN DEFECTS with a repair proposed (second audit): True = the former behaviour is tolerated; rehearsal: LP_ASSUME_FIXED=C06-4,C07-4,C07-5,...
-_FIXED = set(os.environ.get("LP_ASSUME_FIXED", "").split(","))
-PENDING_P4 = "C06-4" not in _FIXED     # GammaQint 1e-5 / 10 sigma: CDF_Poisson decreases across k = 99 -> 100 (fixprop-C06-4)
-PENDING_P6 = "C07-4" not in _FIXED     # Perform_KDE, automatic bandwidth, zero-variance sample: nan (fixprop-C07-4)
-PENDING_P11 = "C07-5" not in _FIXED    # Quantile_Gauss(p < 5.6e-17) terminates (fixprop-C07-5)
-PENDING_CHIBAR = "C07-6" not in _FIXED # chi-bar weights outside [0,1] return numbers (fixprop-C07-6)
-PENDING_MB_SCALE = "C07-7" not in _FIXED  # Maxwell-Boltzmann beyond 1e+-150 (fixprop-C07-7)
-ASSUMPTIONS += [t for f, t in (
-    (PENDING_P4, "OPEN DEFECT P4 (fixprop-C06-4): CDF_Poisson / CDF_Chi_Square monotone on the quadrature branch (counts >= 100, dof > 200) at 1e-8 absolute and "
-                 "CDF differences vs the mass function at 1e-5; after the repair: a decrease of at most 1e-6 of the value + 1e-10 (the absolute noise of 1 - quadrature), differences at 1e-7"),
-    (PENDING_P6, "OPEN DEFECT P6 (fixprop-C07-4): KDE samples have >= 2 distinct values inside the window when the bandwidth is automatic"),
-    (PENDING_P11, "OPEN DEFECT P11 (fixprop-C07-5): Quantile_Gauss is requested for p >= 1e-15 only (below 5.6e-17 the argument 2p-1 rounds to -1 and Inv_Erf terminates)"),
-    (PENDING_CHIBAR, "OPEN DEFECT (fixprop-C07-6): chi-bar-square weights are drawn from [0,1] only (weights outside return numbers, e.g. a negative density)"),
-    (PENDING_MB_SCALE, "OPEN DEFECT P13 (fixprop-C07-7): scale parameters are drawn from 1e-150..1e150 (CDF_Maxwell_Boltzmann(1e-162,1e-162) = -0.115)")) if f]
+ASSUMPTIONS += ["CDF_Poisson / CDF_Chi_Square on the quadrature branch of GammaQ (counts >= 100, dof > 200; fix 3e583ff): the CDF may decrease by at most 1e-6 of "
+                "its value + 1e-10 between neighbouring counts/arguments -- 1e-10 is the ABSOLUTE NOISE FLOOR of Q = 1 - (quadrature of the density) across "
+                "the switch k = 99 -> 100 (measured after the repair: a decrease of 2.9e-14 where the true values are below it; before it 2.2e-9 at a value "
+                "of 2.4e-9); CDF differences vs the mass function there at 1e-7",
+                "Quantile_Gauss for 0 < p < 5.6e-17: the argument 2p-1 rounds to -1 and the result is mu - 10 sqrt2 sigma (fix e9e1286), the exact quantile "
+                "(e.g. -8.49 sigma at p = 1e-17) is not representable through that argument; p = 0 gives the same value, p < -5e-17 a diagnostic"]
+PENDING_C07_8 = True   # OPEN DEFECT found after fix 405b930 (repair proposed: /tmp/fixprop-C07-8): set to False once it is in /repo
+ASSUMPTIONS += [t for f, t in ((PENDING_C07_8, "OPEN DEFECT (fixprop-C07-8): Perform_KDE with the automatic bandwidth on identical points with UNEQUAL weights is nan "
+                                               "(spurious variance ~1e-31 from the rounded mean; the zero-bandwidth fallback of 405b930 is not taken): such samples are "
+                                               "excused; after the repair every automatic bandwidth below 1/64 table spacing falls back to one spacing"),) if f]
 K_MB = 64          # ulps of the two cancelling terms of CDF_Maxwell_Boltzmann (calibrated: worst observed on the unchanged tree x16)
 K_ERF = 4          # ulps of a double erf value near +-1 that the root of erf(x) - y cannot resolve
 K_EXP = 64         # relative K*eps*(size of the exponent) for exp-type formulas
@@ -456,7 +452,7 @@ def generate(tier, seed, ctx):
         vals = sorted(set(xmin + width * rng.uniform(0.1, 0.9) for _ in range(N)))
         w = [1.0] * len(vals) if j % 2 else [rng.uniform(0.5, 2) for _ in vals]
         R.append("c07.kde %d %s %s %s %s" % (len(vals), " ".join(hx(v) + " " + hx(ww) for v, ww in zip(vals, w)), hx(xmin), hx(xmax), hx(0.0)))
-    if not PENDING_P6:      # samples without spread and the automatic bandwidth: one point, identical points, all the weight on one point
+    if True:                # samples without spread and the automatic bandwidth: one point, identical points, all the weight on one point
         for j in range(9 * n1):
             xmin = rng.uniform(-5, 5); width = 10.0 ** rng.uniform(-1, 2); xmax = xmin + width
             v0 = xmin + width * rng.uniform(0.05, 0.95)
@@ -464,16 +460,16 @@ def generate(tier, seed, ctx):
             pts = [(v0, rng.uniform(0.5, 2))] if kind == 0 else [(v0, rng.uniform(0.5, 2)) for _ in range(rng.randint(2, 9))] if kind == 1 else \
                   [(v0, 1.0), (xmin + width * rng.uniform(0.05, 0.95), 0.0), (xmin + width * rng.uniform(0.05, 0.95), 0.0)]
             R.append("c07.kde %d %s %s %s %s" % (len(pts), " ".join(hx(v) + " " + hx(ww) for v, ww in pts), hx(xmin), hx(xmax), hx(0.0)))
-    if not PENDING_CHIBAR:  # mixture weights outside [0,1] are rejected
+    if True:                # mixture weights outside [0,1] are rejected
         for w in ([1.5, -0.5], [0.5, 0.5, -1e-300], [2.0], [0.2, 1.0000000000000002], [-0.0, 0.5, -5e-324]):
             for x in (1.0, 0.0, -1.0):
                 R.append("c07.chibar_pdf %s %s" % (hx(x), lst(w))); R.append("c07.chibar_cdf %s %s" % (hx(x), lst(w)))
-    if not PENDING_MB_SCALE:   # Maxwell-Boltzmann in t = x/a: scales over the whole range of doubles
+    if True:                   # Maxwell-Boltzmann in t = x/a: scales over the whole range of doubles
         for j in range(40 * n1):
             sc = 10.0 ** (rng.uniform(150, 300) * rng.choice([-1, 1])); t = 10.0 ** rng.uniform(-2, 1)
             R.append("c07.mb_pdf %s %s" % (hx(sc * t), hx(sc))); R.append("c07.mb_cdf %s %s" % (hx(sc * t), hx(sc)))
-    if not PENDING_P11:     # probabilities below 5.6e-17: 2p-1 rounds to -1; the quantile is reported as mu - 10 sqrt2 sigma, not by ending the process
-        for p_ in (1e-17, 5e-17, 1e-100, 1e-300, 5e-324):
+    if True:                # probabilities below 5.6e-17: 2p-1 rounds to -1; the quantile is reported as mu - 10 sqrt2 sigma, not by ending the process
+        for p_ in (1e-17, 2e-17, 5e-17, 1e-100, 1e-300, 5e-324):
             for mu, sg in ((0.0, 1.0), (2.5, 1.2)):
                 R.append("c07.gauss_q %s %s %s" % (hx(p_), hx(mu), hx(sg)))
     # ---- two-dimensional normal density (coverage extension) ----
@@ -609,7 +605,10 @@ def _check(op, a, ti, mt, ctx):
         qd0 = 2.0 * p - 1.0
         # without a model answer (oracle-only search) the branch is derived from the request: |2p-1-1| < 1e-16 is the window at p = 1
         ten = (mt[0] == "ten") if mt is not None else abs(qd0 - 1.0) < 1e-16
-        if not PENDING_P11 and 0 < p and abs(qd0 + 1.0) < 1e-16 and s > 0:      # the window at p -> 0 (fixprop-C07-5)
+        mten = abs(qd0 + 1.0) < 1e-16          # the window at p -> 0 (fix e9e1286), decided on 2p-1 as the code forms it in double
+        if mt is not None and (mt[0] == "mten") != mten:
+            ctx["excused"] += 1                # 2p-1 rounds across the 1e-16 window (p within an ulp of 5e-17): the double decision counts
+        if mten and s > 0:
             w = mu - math.sqrt(2) * s * 10
             if not (abs(q - w) <= 1e-12 * max(abs(w), abs(mu))):
                 out.append(fail("prop", "Quantile_Gauss(p -> 0) is not mu - sqrt2*sigma*10", repr(q)))
@@ -792,8 +791,16 @@ def _check(op, a, ti, mt, ctx):
             avg = sum(w * v for v, w in d) / wsum
             var = sum(w * (v - avg) ** 2 / wsum for v, w in d)
             bw = math.sqrt(var) * (4.0 / 3.0 / N) ** 0.2
-        if not (bw > 0) and not PENDING_P6:
-            bw = (xmax - xmin) / 149.0        # the fallback of the automatic bandwidth for a sample without spread (fixprop-C07-4)
+        auto = fl(a[3 + 2 * N]) == 0
+        spacing = (xmax - xmin) / 149.0
+        if auto and PENDING_C07_8 and N > 1 and len({v for v, _ in d}) == 1 and len({w for _, w in d}) > 1:
+            # OPEN DEFECT (fixprop-C07-8): identical points with unequal weights: the rounded weighted mean leaves a spurious variance ~1e-31
+            # and the fallback of fix 405b930 (bandwidth exactly 0) is not taken: nan
+            ctx["excused"] += 1
+            bump(ctx, "KDE: identical points with unequal weights, automatic bandwidth (open defect, fixprop-C07-8)")
+            return out
+        if auto and not (bw > (0.0 if PENDING_C07_8 else spacing / 64)):
+            bw = spacing                      # the fallback of the automatic bandwidth for a sample without (resolvable) spread
         if bw < (xmax - xmin) / 149 / 64:
             # stated exclusion: every tabulated value of such a narrow kernel can underflow to zero (nothing to normalise)
             ctx["excused"] += 1
@@ -857,9 +864,9 @@ def finalize(ctx, exe):
             elif kind == "chi":
                 slack = 2e-13 if pars[0] <= 200 else 1e-8
             elif kind == "pois":
-                slack = 0.0 if xs[i + 1] + 1 <= 100 else (1e-8 if PENDING_P4 else 1e-6 * max(vals[i], 0.0) + 1e-10)
+                slack = 0.0 if xs[i + 1] + 1 <= 100 else (1e-6 * max(vals[i], 0.0) + 1e-10)
             elif kind == "pois_mu":
-                slack = 2e-13 if pars[0] + 1 <= 100 else (1e-8 if PENDING_P4 else 1e-6 * max(vals[i + 1], 0.0) + 1e-10)
+                slack = 2e-13 if pars[0] + 1 <= 100 else (1e-6 * max(vals[i + 1], 0.0) + 1e-10)
             elif kind == "chibar":
                 slack = 2e-13
             if not ratio(ctx, "CDF monotone on a sorted grid (%s)" % kind, max(0.0, sgn * (vals[i] - vals[i + 1])), slack):
@@ -880,7 +887,7 @@ def finalize(ctx, exe):
                 k = M(Fraction(pars[0]))
                 if pars[0] < 2 and a_ == 0:
                     continue          # integrable singularity of the density at 0
-                ref = mpmath.quad(lambda t: d_chi_pdf(t, k)[0], [A, B]); tol = 1e-11 if pars[0] <= 200 else (1e-5 if PENDING_P4 else 1e-7)
+                ref = mpmath.quad(lambda t: d_chi_pdf(t, k)[0], [A, B]); tol = 1e-11 if pars[0] <= 200 else 1e-7
             elif kind == "chibar":
                 w = pars
                 if a_ == 0:
@@ -908,7 +915,7 @@ def finalize(ctx, exe):
                     ref = mpf(fl(toks(pm)[0])) if pm and tag(pm) == "ok" else None
                     if ref is None:
                         continue
-                tol = 2e-12 if b_ + 1 <= 100 else (1e-5 if PENDING_P4 else 1e-7)
+                tol = 2e-12 if b_ + 1 <= 100 else 1e-7
             else:
                 continue
             if not ratio(ctx, "CDF difference = integral/sum of the density (%s)" % kind, abs(mpf(vals[i + 1]) - mpf(vals[i]) - ref), tol):
